@@ -48,9 +48,10 @@ ASSUMPTIONS = [
 
 MGR_IDS = ['m1', 'm', 'm1x', 'a.c', 'abc', 'a+', 'aa', '(x)', 'x', 'x|y',
            '[ab]', 'a', 'b', 'a?', 'M1', 'm 1', 'a*', '', '.*', 'a\\d',
-           'a1', '^a$', 'fred']
-DEST_IDS = ['d1', 'd2', 'd.1', 'd[1]', 'x', 'd1x', 'D1', '', ' ']
-FILT_IDS = ['f1', 'f2', 'f.1', 'f(1)', 'x', 'f1x', 'F1']
+           'a1', '^a$', 'fred', 'owned', 'owned', 'permanent',
+           'pywbemfilter', 'pywbemdestination', 'Owned']
+DEST_IDS = ['d1', 'd2', 'd.1', 'd[1]', 'x', 'd1x', 'D1', '', ' ', 'x:y']
+FILT_IDS = ['f1', 'f2', 'f.1', 'f(1)', 'x', 'f1x', 'F1', 'x:y']
 URLS = ['http://localhost:5000', 'https://host.example.com:5001',
         'http://10.1.2.3:50000', 'http://[::1]:5000', 'http://localhost:5001',
         'https://localhost:5000']
@@ -128,7 +129,10 @@ def gen_plan(run_seed, tier, index):
             steps.append(['add_sub', m, s, r.random() < 0.8,
                           r.randrange(6), r.choice([None, [r.randrange(6)],
                                                     [r.randrange(6),
-                                                     r.randrange(6)]])])
+                                                     r.randrange(6)]]),
+                          # cross: the filter / destinations may be owned by
+                          # another manager
+                          r.random() < 0.2])
         elif k < 0.60:
             steps.append(['rm_sub', m, s, r.randrange(6)])
         elif k < 0.67:
@@ -241,6 +245,16 @@ class World:
         su = sorted(k for k, o in self.subown[s].items() if o == m)
         return d, f, su
 
+    def blocked(self, m, servers):
+        """True if an owned filter or destination of manager m is referenced
+        by a subscription that m does not own (so it cannot be removed)."""
+        for s in servers:
+            for (f, d), o in self.subown[s].items():
+                if o != m and (self.owner[s].get(('f', f)) == m or
+                               self.owner[s].get(('d', d)) == m):
+                    return True
+        return False
+
     def pick(self, r_idx, items):
         items = sorted(items)
         return items[r_idx % len(items)] if items else None
@@ -298,6 +312,17 @@ def execute(plan):
                                 w.owner[s].get((kind[0], x), 'none') != m
                                 for x in extra) and kind != 'subscriptions' \
                                 else 'owned-list-differs'
+                            if kind == 'subscriptions' and extra and \
+                                    not miss and all(
+                                        w.subown[s].get(x, m) != m
+                                        and (w.owner[s].get(('f', x[0])) == m
+                                             or w.owner[s].get(
+                                                 ('d', x[1])) == m)
+                                        for x in extra):
+                                # the subscription of another manager on an
+                                # owned filter / destination of this one
+                                k2 = 'rediscovery-claims-foreign-sub-on-' \
+                                    'owned-end'
                             viol('%s/%s' % (k2, kind),
                                  'step %d %s: manager %r (server %d) lists '
                                  'owned %s %s, the model says %s (extra %s, '
@@ -442,6 +467,7 @@ def execute(plan):
             w.crash_at[m] = pending_crash.pop(m, None)
             crashed = False
             outcome = None
+            blocked = False
             befores = {s: w.store(s) for s in range(len(w.servers))}
             s = st[2] if len(st) > 2 and isinstance(st[2], int) and \
                 kind not in ('remove_all', 'exit') else None
@@ -480,13 +506,18 @@ def execute(plan):
                         owned=owned, **kw)
                     outcome = inst['Name']
                 elif kind == 'add_sub':
-                    _, _, _, owned, fi, dis = st
+                    _, _, _, owned, fi, dis = st[:6]
+                    cross = len(st) > 6 and st[6]
                     owned_op = owned
                     md, mf, _ms = w.owned(m, s)
                     perm_f = sorted(n for (k, n), o in w.owner[s].items()
-                                    if k == 'f' and o is None)
+                                    if k == 'f' and (o is None or (
+                                        cross and o != m)))
                     perm_d = sorted(n for (k, n), o in w.owner[s].items()
-                                    if k == 'd' and o is None)
+                                    if k == 'd' and (o is None or (
+                                        cross and o != m)))
+                    if cross:
+                        bump(probes, 'cross_manager_subscription_attempt')
                     fname = w.pick(fi, mf + perm_f)
                     if fname is None:
                         continue
@@ -557,6 +588,7 @@ def execute(plan):
                                             else paths[0])
                 elif kind == 'remove_server':
                     involved[0] += 1
+                    blocked = w.blocked(m, [s])
                     md, mf, ms = w.owned(m, s)
                     exp_del = {('d', n) for n in md} | \
                         {('f', n) for n in mf} | {('s',) + k for k in ms}
@@ -565,6 +597,7 @@ def execute(plan):
                     outcome = 'removed'
                 elif kind in ('remove_all', 'exit'):
                     involved[0] += 1
+                    blocked = w.blocked(m, sorted(w.reg[m]))
                     outcome = 'removed-all'
                     if kind == 'exit':
                         mgr.__exit__(None, None, None)
@@ -618,6 +651,20 @@ def execute(plan):
                          'not deleted' % (i, what, ids[m],
                                           sorted(ed - removed)))
                 if kind in ('remove_server', 'remove_all', 'exit') and \
+                        ok_exc and not crashed and blocked:
+                    # an owned filter / destination is referenced by the
+                    # subscription of another manager: it cannot be removed
+                    bump(probes, 'remove_server_blocked_by_foreign_sub')
+                    # servers that were handled before the failing one are
+                    # not registered any more
+                    for s3 in sorted(w.reg[m]):
+                        try:
+                            mgr.get_owned_filters(SVR_URLS[s3])
+                        except ValueError:
+                            w.reg[m].discard(s3)
+                        except Exception:  # pylint: disable=broad-except
+                            pass
+                elif kind in ('remove_server', 'remove_all', 'exit') and \
                         ok_exc and not crashed:
                     viol('remove-server-failed',
                          'step %d %s (manager %r) raised %s; left behind %s' %
